@@ -268,7 +268,7 @@ def run_check(pid, tier, seed_value, jobs, budget_s):
     if stats.failures:
         REPLAY_DIR.mkdir(exist_ok=True)
         hyp_stages = [s for s in prop.plan(tier) if s["kind"] == "hyp"]
-        shrink_budget = 45 if tier == "quick" else 240
+        shrink_budget = 20 if tier == "quick" else 240
         for n, (bucket, (size, case, discs)) in enumerate(sorted(stats.failures.items())):
             best = {"case": case, "discs": discs}
             if n < 3 and getattr(prop, "SHRINK", True):
